@@ -85,6 +85,22 @@ class LoopSpec:
         self.prepare = prepare      # optional normalisation of locals before the cut (e.g. None|Char -> Optional)
 
 
+def _guarded_spec(spec: "LoopSpec", fn: str, header: str) -> "LoopSpec":
+    """a sidecar loop contract applied to a loop that moved into a helper: if it names a local the helper does not have, the loop
+    is out of reach (undecided) -- never a crash"""
+    def guard(f):
+        if f is None:
+            return None
+
+        def g(*a, **k):
+            try:
+                return f(*a, **k)
+            except (KeyError, AttributeError, IndexError, TypeError) as ex:
+                raise Unsupported(f"the sidecar invariant of `{header}` does not fit the helper {fn} it moved into ({type(ex).__name__}: {ex})")
+        return g
+    return LoopSpec(invariant=guard(spec.invariant), variant=guard(spec.variant), modifies=list(spec.modifies), header=spec.header, unroll=spec.unroll, prepare=guard(spec.prepare))
+
+
 class Contract:
     """call-by-contract record (one object: proved for the body, assumed at call sites).
 
@@ -913,7 +929,7 @@ class Executor:
                     fn = find_def(self.module, f"{self.class_name}.{name}")
                 except LookupError:
                     fn = None
-                if isinstance(fn, ast.FunctionDef) and not any(isinstance(n, (ast.For, ast.While)) for n in ast.walk(fn)):
+                if isinstance(fn, ast.FunctionDef):      # (a loop inside needs a sidecar invariant: see loop_spec)
                     decos = [d.id for d in fn.decorator_list if isinstance(d, ast.Name)]
                     bs = None if "staticmethod" in decos else (o.klass if ("classmethod" in decos and isinstance(o, Obj) and o.klass is not None) else recv)
                     self._auto_depth = getattr(self, "_auto_depth", 0) + 1
@@ -1397,6 +1413,12 @@ class Executor:
         for (f, h), spec in self.loops.items():
             if f == fn and norm(h) == norm(header):
                 return spec
+        # a loop that was moved, with its header unchanged, into a helper method of the same class (auto-inlined below): the
+        # sidecar invariant written for it where it used to be still speaks about the same state, if exactly one such spec exists
+        if getattr(self, "_auto_depth", 0) > 0:
+            same = [spec for (f, h), spec in self.loops.items() if norm(h) == norm(header) and f.split(".")[0] == fn.split(".")[0]]
+            if same and all(sp is same[0] or (sp.invariant is same[0].invariant) for sp in same):
+                return _guarded_spec(same[0], fn, header)
         raise Unsupported(f"loop without invariant in {fn}: `{header}` L{node.lineno}")
 
     def coerce_empty_dicts(self, st: State, paths: List[str]):
